@@ -10,6 +10,7 @@ import NutsModel.Facts.C07
 import NutsProofs.Lemmas.C07
 import NutsProofs.Lemmas.C07LiveN
 import NutsProofs.Lemmas.C07Example
+import NutsProofs.Lemmas.C07LiveO
 open Nuts.Proto Nuts Nuts.Proto.L Nuts.Proto.Live Nuts.C07.Ex
 
 namespace Nuts.C07.Props
@@ -152,6 +153,14 @@ theorem pull_round_result {cfg : Cfg} {env : Env} (H : Hyp cfg env) (a b : Node)
       DagOK a'.dag ∧ (∀ t ∈ a.dag, t ∈ a'.dag) ∧ (∀ t ∈ a'.dag, t ∈ a.dag ∨ t ∈ b.dag) ∧
       ((∃ t ∈ a'.dag, t ∉ a.dag) ∨ StuckAt cfg a.dag b.dag (pageOf cfg (Nat.min (lcOf b.dag) (lcOf a.dag)))) :=
   pull_result H a b pA pB ha hB hf hroot hpb hq hc hxf fuel hfuel
+
+/-- **A pull round is a schedule of the adversarial network** (node 0 = puller, node 1 = server): one gossip tick
+    followed by deliveries of messages the partner sent, so everything proved for ALL schedules holds along rounds
+    and the convergence theorem speaks about executions of the network model. -/
+theorem rounds_are_schedules (cfg : Cfg) (env : Env) (pA pB : Peer) (fuel : Nat) (a b : Node)
+    (w : World) (hw : w.nodes = [a, b]) (hpa : peerOf a pB.key = some pB) (hpb : peerOf b pA.key = some pA) :
+    ∃ sched, (w.run cfg sched).nodes = [(pullRound cfg env pA pB fuel a b).1, (pullRound cfg env pA pB fuel a b).2] :=
+  pullRound_is_run cfg env pA pB fuel a b w hw hpa hpb
 
 /-- **Two stuck pulls mean equality** (why one direction alone is not enough, and why a pair is): if `a` learned
     `StuckAt` about `b` and `b` learned `StuckAt` about `a`, the two DAGs hold the same transactions. -/
